@@ -25,8 +25,8 @@ def plan(tier, seed):
     specs = []
     n = 260 if tier == 'quick' else 4000
     for v in tables.versions():
-        for kind in ('segment', 'field', 'message'):
-            specs.append({'kind': 'random', 'world': kind, 'version': v, 'n': n if kind != 'message' else n // 2})
+        for kind in ('segment', 'field', 'message', 'component'):
+            specs.append({'kind': 'random', 'world': kind, 'version': v, 'n': n if kind in ('segment', 'field') else n // 2})
     specs.append({'kind': 'exhaustive', 'world': 'segment', 'version': '2.5', 'L': 3 if tier == 'quick' else 4})
     specs.append({'kind': 'exhaustive', 'world': 'message', 'version': '2.5', 'L': 3})
     specs.append({'kind': 'exhaustive', 'world': 'field', 'version': '2.5', 'L': 3 if tier == 'quick' else 4})
@@ -101,6 +101,8 @@ def world_kwargs(desc):
         kw['seg'] = desc['segment']
     if 'field' in desc:
         kw['fname'] = desc['field']
+    if 'component' in desc:
+        kw['cname'] = desc['component']
     if 'structure' in desc:
         kw['structure'] = desc['structure']
     return kw
